@@ -175,7 +175,7 @@ def encrypt(protected: dict | None, plaintext: bytes, recipients: list[dict], *,
             else:
                 epk, d = gen_ephemeral(r["key"])
                 eph[i] = d
-                put(i, "epk", epk)
+                put(i, "epk", {**epk, **(r.get("epk_extra") or {})})    # an "epk" is a JWK: it may carry kid, use, alg ... beside its public members
         if a in PBES2:
             if "p2s" not in merged(i):
                 put(i, "p2s", b64u_enc(os.urandom(16)))
